@@ -154,6 +154,8 @@ class Runner:
         # make sure something is saved early so that loads have a target
         ops.insert(0, {"op": "save", "pol": 0, "path": rng.choice(spellings)})
         ops.append({"op": "load", "path": ops[0]["path"], "ctor": "same"})
+        if rng.random() < 0.3:
+            ops.append({"op": "tilde_roundtrip", "pol": rng.randrange(3), "path": "m"})
         return {
             "scenario": NAME, "cls": self.cls, "arch": arch, "ops": ops, "faults": [],
             "pols": [{"key": rng.getrandbits(31), "perturb": rng.choice(["none", "scale", "special"])} for _ in range(3)],
@@ -334,6 +336,31 @@ class Runner:
                             eqx.tree_serialise_leaves(disk, other)
                             content[disk] = "other_arch"
                         tr.ev("preexist", path=op["path"], what=op["what"])
+                    elif kind == "tilde_roundtrip":
+                        # a path spelled with a leading "~": whatever the library makes of it, save and load must agree on it
+                        old_home, here = os.environ.get("HOME"), os.getcwd()
+                        os.environ["HOME"] = root
+                        os.chdir(root)
+                        try:
+                            spelled = "~/tl%d/m" % oi
+                            try:
+                                pols[op["pol"]].serialize(spelled)
+                                loaded = self.P.deserialize(spelled, self.env, **ctor_kwargs(self.ptype, arch), key=jr.key(99))
+                                ok_rt = self._leaves_equal(loaded, pols[op["pol"]])
+                                err = None
+                            except Exception as exc:  # noqa: BLE001
+                                ok_rt, err = False, exc
+                        finally:
+                            os.chdir(here)
+                            if old_home is None:
+                                os.environ.pop("HOME", None)
+                            else:
+                                os.environ["HOME"] = old_home
+                        tr.ev("tilde_roundtrip", ok=ok_rt, raised=type(err).__name__ if err else None)
+                        if not ok_rt:
+                            res.fail("C18", "path_spelling", "tilde_path_not_consistent_between_save_and_load", raised=type(err).__name__ if err else None)
+                        else:
+                            res.ok("C18", "path_spelling")
                     elif kind == "load":
                         self._do_load(res, tr, op, arg, disk, content, pols, arch, obs, plan)
                 finally:
